@@ -294,24 +294,23 @@ def gen_writeread(rng):
     n_hits = rng.choice([0, 1, 3, 6])
     n_holds = rng.choice([0, 0, 1, 3])
     total = beat + 8
-    used = set()
     hits, holds = [], []
-    for _ in range(n_hits):
-        b = Fr(rng.randrange(0, total * 48), 48) if rng.random() < 0.5 else Fr(rng.randrange(0, total * 4), 4)
-        col = rng.randrange(keys)
-        if (b, col) in used:
-            continue
-        used.add((b, col))
-        hits.append(dict(beat=R(b), col=col))
+    spans = []                      # (column, first beat, last beat) occupied
     for _ in range(n_holds):
         b = Fr(rng.randrange(0, total * 4), 4)
         ln = Fr(rng.randrange(1, 32), 4)
         col = rng.randrange(keys)
-        if any(c2 == col and b <= b2 <= b + ln for b2, c2 in used):
+        if any(c2 == col and not (b + ln < lo or hi < b) for c2, lo, hi in spans):
             continue
-        used.add((b, col))
-        used.add((b + ln, col))
+        spans.append((col, b, b + ln))
         holds.append(dict(beat=R(b), len=R(ln), col=col))
+    for _ in range(n_hits):
+        b = Fr(rng.randrange(0, total * 48), 48) if rng.random() < 0.5 else Fr(rng.randrange(0, total * 4), 4)
+        col = rng.randrange(keys)
+        if any(c2 == col and lo <= b <= hi for c2, lo, hi in spans):
+            continue
+        spans.append((col, b, b))
+        hits.append(dict(beat=R(b), col=col))
     t0 = rng.choice([0, 0, 1, -1, 5, -7, 20, 33]) * 48 * p
     if game == "bms":
         t0 = 0          # the format has no file offset: the first tempo point is at 0
@@ -403,20 +402,21 @@ def valid(case):
                 return False
             if case["game"] == "bms" and (case["t0"] != 0 or any(f not in (1, 2, 4, 5, 8, 10, 16, 20, 25, 40, 50) for f in [q] + [b["bl"] // (48 * p) for b in case["bpms"]])):
                 return False
-            for h in case["hits"]:
-                if F(h["beat"]) < 0 or (F(h["beat"]) * 48).denominator != 1 or not (0 <= h["col"] < case["keys"]):
-                    return False
-            seen = set((F(h["beat"]), h["col"]) for h in case["hits"])
-            if len(seen) != len(case["hits"]):
-                return False
+            spans = []
             for h in case["holds"]:
                 b, ln = F(h["beat"]), F(h["len"])
                 if b < 0 or ln <= 0 or (b * 48).denominator != 1 or (ln * 48).denominator != 1 or not (0 <= h["col"] < case["keys"]):
                     return False
-                if any(c2 == h["col"] and b <= b2 <= b + ln for b2, c2 in seen):
+                if any(c2 == h["col"] and not (b + ln < lo or hi < b) for c2, lo, hi in spans):
                     return False
-                seen.add((b, h["col"]))
-                seen.add((b + ln, h["col"]))
+                spans.append((h["col"], b, b + ln))
+            for h in case["hits"]:
+                b = F(h["beat"])
+                if b < 0 or (b * 48).denominator != 1 or not (0 <= h["col"] < case["keys"]):
+                    return False
+                if any(c2 == h["col"] and lo <= b <= hi for c2, lo, hi in spans):
+                    return False
+                spans.append((h["col"], b, b))
             for k in ("samples", "svs"):
                 for s in case.get(k, []):
                     if s["t"] % (48 * p):
@@ -945,6 +945,15 @@ def timeline(game, obj):
     return out
 
 
+def d05_predicate(case):
+    """known finding D05 (BMS reading, open): a long-note tail pairs with the last object of its lane *in file order*;
+    it can only bite when a lane that holds a long note holds another object as well"""
+    if case["game"] != "bms" or not case["holds"]:
+        return False
+    lanes = [h["col"] for h in case["holds"]] + [h["col"] for h in case["hits"]]
+    return any(lanes.count(h["col"]) >= 2 for h in case["holds"])
+
+
 def run_writeread(case, drv):
     import warnings
     game = case["game"]
@@ -963,29 +972,56 @@ def run_writeread(case, drv):
             return dict(claim="writeread", ok=True, agree=True, dom=False, kf=None, tags=tags + ["base-unwritable:" + type(e).__name__],
                         nontrivial=False)
         try:
+            c0_again = timeline(game, wr_roundtrip(game, base, case["keys"]))
+        except Exception:
+            c0_again = None
+        try:
             rated = base.rate(float(r))
-            back = wr_roundtrip(game, rated, case["keys"])
-            got = timeline(game, back)
             mem = timeline(game, rated)
         except Exception as e:
-            return dict(claim="writeread", ok=False, agree=True, dom=True, kf=None, tags=tags + ["raises"], nontrivial=True,
+            return dict(claim="writeread", ok=False, agree=True, dom=True, kf=None, tags=tags + ["rate-raises"], nontrivial=True,
                         detail=dict(exc=f"{type(e).__name__}: {e}"))
-    # in-memory result against the specification (as in claim `scale`, on the format's fields)
-    sp_mem = drv.call("c13.set_scales", game=game, kind=kind, r=R(r), eps=R(EPS_T), set=c0, out=mem)["ok"]
-    # read-back of the written rated chart against the specification: the rated timeline
-    sp = drv.call("c13.set_scales", game=game, kind=kind, r=R(r), eps=R(EPS_WR), set=c0, out=got)["ok"]
-    ok = sp["holds"] and sp_mem["holds"]
+        try:
+            back = wr_roundtrip(game, rated, case["keys"])
+            got = timeline(game, back)
+        except Exception as e:
+            base_ok = c0_again is not None and drv.call("c13.close_set", eps=R(EPS_WR), want=c0, got=c0_again)["ok"]
+            if base_ok:
+                # the un-rated chart survives its format, the rated one cannot even be written / read back
+                return dict(claim="writeread", ok=False, agree=True, dom=True, kf=None, tags=tags + ["rated-unwritable"], nontrivial=True,
+                            detail=dict(exc=f"{type(e).__name__}: {e}"))
+            if d05_predicate(case):
+                return dict(claim="writeread", ok=False, agree=True, dom=False, kf="D05", tags=tags + ["base-unstable", "rated-unwritable"],
+                            nontrivial=False, detail=dict(exc=f"{type(e).__name__}: {e}"))
+            return dict(claim="writeread", ok=True, agree=True, dom=False, kf=None, tags=tags + ["base-unstable", "rated-unwritable"],
+                        nontrivial=False)
     # the case must really be representable in the format (otherwise the generator is off the grid: no verdict)
     want0 = timeline(game, obj)
     representable = drv.call("c13.close_set", eps=R(EPS_WR), want=want0, got=c0)["ok"]
     if not representable:
         return dict(claim="writeread", ok=True, agree=True, dom=False, kf=None, tags=tags + ["off-grid"], nontrivial=False)
+    # ... and the un-rated chart, as read from its file, must survive the format's own round trip
+    stable = drv.call("c13.close_set", eps=R(EPS_WR), want=c0, got=c0_again)["ok"] if c0_again is not None else False
+    # in-memory result against the specification (as in claim `scale`, on the format's fields)
+    sp_mem = drv.call("c13.set_scales", game=game, kind=kind, r=R(r), eps=R(EPS_T), set=c0, out=mem)["ok"]
+    # read-back of the written rated chart against the specification: the rated timeline
+    sp = drv.call("c13.set_scales", game=game, kind=kind, r=R(r), eps=R(EPS_WR), set=c0, out=got)["ok"]
+    ok = sp["holds"] and sp_mem["holds"]
+    kf = None
+    dom = bool(sp["dom"])
+    if not stable:
+        dom = False
+        tags.append("base-unstable")
+        if sp_mem["holds"] and not sp["holds"] and d05_predicate(case):
+            kf = "D05"          # BMS long-note tails are paired in file order: not caused by the rate change
+        else:
+            ok = bool(sp_mem["holds"])   # no verdict on the file level: the format does not carry this chart
     if not ok:
-        detail = dict(r=str(r), base=c0, rated_in_memory=mem, read_back=got,
+        detail = dict(r=str(r), base=c0, rated_in_memory=mem, read_back=got, base_again=c0_again,
                       want=drv.call("c13.scale_set", game=game, kind=kind, r=R(r), set=c0)["ok"])
     n_obj = len(case["hits"]) + len(case["holds"])
-    res = dict(claim="writeread", ok=bool(ok), agree=True, dom=bool(sp["dom"]), kf=None, tags=tags,
-               nontrivial=(r != 1 and n_obj > 0))
+    res = dict(claim="writeread", ok=bool(ok), agree=True, dom=dom, kf=kf, tags=tags,
+               nontrivial=(r != 1 and n_obj > 0 and stable))
     if detail:
         res["detail"] = detail
     return res
